@@ -47,7 +47,9 @@ class RealServer:
     def command(self, line: str):
         """returns (list of reply lines, exception or None).  The line is followed, in the same session, by a sentinel GET for a
         subunit no store has (answered with one error line): a session that ended or stopped answering shows as SessionEnded"""
-        self.h.rfile = io.BytesIO(line.encode("utf-8") + b"\r\n" + self.SENTINEL.encode() + b"\r\n")
+        # `line` is text (sent as UTF-8, the protocol's encoding) or the bytes the library's own write path produced for a command
+        raw = line if isinstance(line, (bytes, bytearray)) else line.encode("utf-8") + b"\r\n"
+        self.h.rfile = io.BytesIO(bytes(raw) + self.SENTINEL.encode() + b"\r\n")
         self.h.wfile = io.BytesIO()
         exc = None
         with contextlib.redirect_stdout(io.StringIO()):
